@@ -22,7 +22,7 @@ RULE = ('seeded merge sequences x {wrap under 1-3 keys (sometimes equal to inner
 ASSUMPTIONS = ['an emptied root is exempt from the remove-this-key comparison (there is no key to remove at the root)']
 TIERS = {'quick': {'cases': 1500, 'budget': 60}, 'thorough': {'cases': 60000, 'budget': 900}}
 
-POOL = ['a', 'b', 'c', 'd', '_u', 'k1']
+POOL = ['a', 'b', 'c', 'd', '_u', 'k1', 'stages']          # ('stages': named like an attribute of the builder's own stream nodes - a key like any other)
 HOSTILE = ['exp-1', 'a.b', 'x y', 'b[0]']          # keys that are not identifier-like (paths through them must not be re-parsed)
 
 
